@@ -9,6 +9,7 @@ forms, additivity (numeric).
 import re
 
 from verif import core, cow
+from verif import symb as sy
 from verif.tree import walk, walk_fn, show, stmt_list, meth, strip, decast, children
 
 LEVEL = "other"
@@ -592,6 +593,85 @@ def run(chk):
     if uses < 2:
         raise core.AnalysisBroken("EclIO::EGrid: fewer than 2 uses of the NNC1/NNC2 members found")
 
+    # ---- C13.pillar: corner coordinates are interpolated along the cell's own pillar at the corner's own depth
+    r_pl = chk.rule("C13.pillar", "getCellCorners (EclipseGrid and both EclIO::EGrid versions): corner e of X (Y) is top + (bottom - top) / (zt - zb) * (zt - Z[e]) with top/bottom the x (y) entries 0/3 (1/4) and zt/zb entries 2/5 of the pillar record, the depth taken from Z at the SAME corner e; for a vertical pillar (zt == zb) it is the top value", floor=12)
+    for f in fx.fns:
+        if f["n"] != "getCellCorners" or not f.get("body") or len(f.get("params") or []) < 4:
+            continue
+        pn = [p_["n"] for p_ in f["params"]]
+        outs = [p_["n"] for p_ in f["params"] if "array<double" in (p_.get("t") or "") and not (p_.get("t") or "").startswith("const")]
+        if len(outs) != 3:
+            continue
+        PX, PY, PZ = outs
+        lps = [n for n in stmt_list(f["body"]) if n["k"] == "For" and any(x["k"] == "Bin" and x.get("asg") and any(y.get("k") == "Ref" and y.get("n") in (PX, PY) for y in walk(x["c"][0])) for x in walk(n["body"]))]
+        if not lps:
+            continue       # an overload that only forwards
+        if len(lps) != 1:
+            raise core.AnalysisBroken("%s: more than one pillar loop" % f["q"])
+        lp = lps[0]
+        lv = [v["n"] for d in walk(lp["init"]) if d["k"] == "Decl" for v in d["vars"]][0]
+
+        def sub3(e):
+            e = strip(e)
+            if e.get("k") == "Idx":
+                return strip(e["c"][0]), e["c"][1]
+            if e.get("k") == "OpCall" and e.get("op") == "[]" and len(e.get("a") or []) == 2:
+                return strip(e["a"][0]), e["a"][1]
+            return None
+
+        def leaf_p(e, lv=lv, PZ=PZ):
+            sb = sub3(e)
+            if sb:
+                base, idx = sb
+                t = show(decast(idx)).replace(" ", "")
+                if base.get("n") == PZ:
+                    return sy.S("Z[%s]" % t.replace(lv, "n"))
+                if base.get("k") in ("Mem", "Ref") and "coord" in (base.get("n") or "").lower():
+                    m = re.fullmatch(r"\(?\w+\[%s\](?:\+(\d))?\)?" % lv, t)
+                    if m:
+                        return sy.S("c%s" % (m.group(1) or "0"))
+            if e.get("k") == "Mem" and e.get("n") == "m_radial":
+                return sy.I(0)
+            return None
+        locs = {v["n"] for n in walk(lp["body"]) if n["k"] == "Decl" for v in n["vars"]}
+        ev_ = sy.Eval(leaf_p, locs)
+        found = {}
+
+        def scan(stmts, env, vertical):
+            env = dict(env)
+            for st in stmts:
+                if st["k"] == "If" and isinstance(st.get("cond"), dict):
+                    c = ev_.term(st["cond"], env)
+                    is_vert = c is not None and c[0] == "eq" and {c[1], c[2]} == {sy.S("c2"), sy.S("c5")}
+                    if is_vert:
+                        scan(stmt_list(st["then"]), env, True)
+                        if st.get("else") is not None:
+                            scan(stmt_list(st["else"]), env, False)
+                        continue
+                    if c is not None and c[0] == "int":
+                        env = ev_.run(stmt_list(st["then"] if c[1] else st.get("else")), env) if (c[1] or st.get("else") is not None) else env
+                        continue
+                if st["k"] == "Bin" and st.get("asg") and st.get("op") == "=" and sub3(st["c"][0]) and sub3(st["c"][0])[0].get("n") in (PX, PY):
+                    base, idx = sub3(st["c"][0])
+                    corner = show(decast(idx)).replace(" ", "").replace(lv, "n")
+                    found[(base["n"], corner, vertical)] = (ev_.term(st["c"][1], env), st)
+                    continue
+                env = ev_.run([st], env)
+        scan(stmt_list(lp["body"]), {}, None)
+        if any(v is None for (_, _, v) in found):
+            raise core.AnalysisBroken("%s: corner assignments outside the zt == zb split" % f["q"])
+        for arr, a in ((PX, 0), (PY, 1)):
+            for corner in sorted({c_ for (a_, c_, v_) in found}):
+                top, bot, zt, zb = sy.S("c%d" % a), sy.S("c%d" % (3 + a)), sy.S("c2"), sy.S("c5")
+                zc = sy.S("Z[%s]" % corner)
+                want = {True: top, False: sy.add(top, sy.mul(sy.div(sy.sub(bot, top), sy.sub(zt, zb)), sy.sub(zt, zc)))}
+                for vert in (True, False):
+                    got = found.get((arr, corner, vert))
+                    key = "%s@%d:%s[%s]:%s" % (f["q"].split("::")[-2] + "::" + f["n"], f["l"], "XY"[a], corner, "vertical" if vert else "inclined")
+                    chk.instance(r_pl, key, sample=dict(function=f["q"], corner="%s[%s]" % ("XY"[a], corner), value=sy.show_term(got[0]) if got else None))
+                    if not got or got[0] != want[vert]:
+                        chk.violation(r_pl, key, "%s computes %s[%s] (%s pillar) as %s; on the pillar through (c0,c1,c2)-(c3,c4,c5) the corner at depth Z[%s] has %s = %s: the corner leaves its pillar (cells no longer share faces, volumes are not additive)" % (f["q"], "XY"[a], corner, "vertical" if vert else "inclined", sy.show_term(got[0]) if got else "nothing", corner, "xy"[a], sy.show_term(want[vert])), f["file"], got[1]["l"] if got else lp["l"])
+
     # ---- C13.gridhead: the dimensions travel through GRIDHEAD slots 1, 2, 3 in the order nx, ny, nz on both sides
     r_gh = chk.rule("C13.gridhead", "GRIDHEAD: EclipseGrid::save stores (nx, ny, nz) in slots 1, 2, 3 and every reader (EclipseGrid's EGRID loader, EclIO::EGrid for the global grid and for an LGR's host) takes axis a from slot a + 1", floor=4)
     AX = {"m_nx": 0, "m_ny": 1, "m_nz": 2}
@@ -632,7 +712,6 @@ def run(chk):
 
     # ---- C13.ijk: every implementation of (i,j,k) <-> global index uses the natural ordering
     r_ijk = chk.rule("C13.ijk", "all implementations of the cell numbering agree with the natural ordering: global = i + nx (j + ny k) (GridDims::getGlobalIndex, EGrid::global_index / active_index), and the inverse splits a global index as i = g mod nx, j = (g div nx) mod ny, k = g div (nx ny) - written either by successive division or plane first (GridDims::getIJK, EGrid::ijk_from_global_index / ijk_from_active_index / hostCellsIJK, ExtSmryOutput::ijk_from_global_index, ESmry::ijk_from_global_index: the same, one-based)", floor=8)
-    from verif import symb as sy
     gx = chk.facts(UNITS + ["opm/io/eclipse/ESmry.cpp", "opm/io/eclipse/ExtSmryOutput.cpp"])
     NXP = re.compile(r"^(this\.)?(getNX\(\)|m_nx|nijk\[0\]|dims\[0\]|nI|host_nijk\[0\]|m_dims\[0\]|this\.getNX\(\))$")
     NYP = re.compile(r"^(this\.)?(getNY\(\)|m_ny|nijk\[1\]|dims\[1\]|nJ|host_nijk\[1\]|m_dims\[1\]|this\.getNY\(\))$")
